@@ -258,6 +258,16 @@ def run_contracts(col, cls, p, g, tag):
                 return False, f"{which} with the lazily set scale differs from the same transform constructed with b = {b0!r}"
         if not np.allclose(r1, ref.transform(first), rtol=1e-13) or not np.isclose(r1[-1], p["rmax"], rtol=1e-12):
             return False, "first transformed grid does not end at rmax"
+        # a single point given as a zero-dimensional array: the scale taken from it is a value, not the caller's (mutable) array
+        for first_call in ("transform", "deriv", "inverse", "set_maximum_parameter_b"):
+            tf0 = getattr(rt, cls)(p["rmin"], p["rmax"])
+            buf = np.array([[0.5 * p["b"] + 1.0]])
+            pt = buf[0, 0, ...]                      # 0-d view of the caller's buffer
+            getattr(tf0, first_call)(pt)
+            b_then = float(tf0.b)
+            buf *= 0.5
+            if float(tf0.b) != b_then:
+                return False, f"scale taken from a 0-d array in {first_call} follows the caller's later in-place change: {b_then!r} -> {float(tf0.b)!r}"
         return True, None
     col.check(f"{cls}:lazy-scale", lazy_scale, inputs=inp)
 
